@@ -24,8 +24,8 @@ using namespace smc;
 namespace cc = cds::container; namespace ss = cds::container::striped_set;
 namespace {
 typedef Cfg<CAPS_BASIC, false, false, false> C_lock;
-template <class S> struct StSet : SetA<cds::gc::nogc, S, C_lock> { explicit StSet(const Program& p) { this->s.reset(new S((size_t)p.knob("capacity", 2))); } };
-template <class M> struct StMap : MapA<cds::gc::nogc, M, C_lock> { explicit StMap(const Program& p) { this->s.reset(new M((size_t)p.knob("capacity", 2))); } };
+template <class S> struct StSet : SetA<cds::gc::nogc, S, C_lock> { static const bool exclusive_functors = true; explicit StSet(const Program& p) { this->s.reset(new S((size_t)p.knob("capacity", 2))); } };
+template <class M> struct StMap : MapA<cds::gc::nogc, M, C_lock> { static const bool exclusive_functors = true; explicit StMap(const Program& p) { this->s.reset(new M((size_t)p.knob("capacity", 2))); } };
 // single_bucket_size_threshold doubles the table on every insert into an over-threshold bucket: degenerate-hash programs are kept short
 void gen(Rng& r, Program& p, int tier, const std::string&) {
     GenCfg g; g.caps = CAPS_BASIC; g.nkeys_hot = 5; g.nkeys_cold = 3; g.max_ops = 5; g.hash_modes = 4; gen_program(r, p, tier, g); p.set("capacity", r.pick({1, 2, 2, 4}));
